@@ -419,7 +419,7 @@ namespace std
 {
 template <std::size_t I, class Allocator, class... Parameter>
 struct tuple_element<I, ::cntgs::BasicContiguousElement<Allocator, Parameter...>>
-    : std::tuple_element<I, decltype(::cntgs::BasicContiguousElement<Allocator, Parameter...>::reference)>
+    : std::tuple_element<I, decltype(::cntgs::BasicContiguousElement<Allocator, Parameter...>::reference_)>
 {
 };
 
